@@ -15,6 +15,8 @@ Structural clauses decided:
      return the like-named observation fields
  R9  the MTU link label search covers every [mtu] entry and value
  C06.R1/R2 the tokens Display prints are the ones the database parser reads back (shared with C06)
+ R10 every narrowing integer conversion in the TCP crate is proven (difference constraints) or reviewed to fit
+ TW  the IPv4 and IPv6 copies of the per-packet functions route sides / roles / lookups identically
 """
 from ..engine import cfg as C
 from ..engine import decision as D
